@@ -17,6 +17,8 @@ def regen(ctx):
         "runtime/event/event.go:event.linkTo",
         "runtime/event/event.go:event.Hook",
         "runtime/event/hook.go:Hook.Unhook",
+        "runtime/event/hook.go:Hook.WorkerPool",
+        "runtime/event/options.go:triggerSettings.hasWorkerPool",
         "runtime/event/events.go:Event1.Trigger",
         "ds/orderedmap/orderedmap.go:OrderedMap.ForEach",
         "ds/orderedmap/orderedmap.go:OrderedMap.Delete",
@@ -34,12 +36,13 @@ SPEC = {
     "theorems": [
         "C15_trigger_exactly_once", "C15_pre_trigger", "C15_weak_iteration", "C15_max_trigger_count", "C15_max_trigger_count_never_more",
         "C15_max_trigger_count_seq", "C15_max_trigger_count_hooks",
-        "C15_link", "C15_link_concurrent", "C15_promise_once", "C15_notifier", "C15_notifier_wait_race",
+        "C15_link", "C15_link_concurrent", "C15_pooled_exactly_once", "C15_promise_once", "C15_notifier", "C15_notifier_wait_race",
         "C15_notifier_old_witness", "C15_notifier_wait_race_old_witness",
         "C15_skeleton_Listener_Wait", "C15_skeleton_Listener_Deregister", "C15_skeleton_Notifier_removeListener",
         "C15_skeleton_Notifier_Notify", "C15_skeleton_Notifier_Listener", "C15_skeleton_Event1_OnTrigger",
         "C15_skeleton_Event_Trigger", "C15_skeleton_triggerSettings_currentTriggerExceedsMaxTriggerCount",
         "C15_skeleton_event_linkTo", "C15_skeleton_event_Hook", "C15_skeleton_Hook_Unhook", "C15_skeleton_Event1_Trigger",
+        "C15_skeleton_Hook_WorkerPool", "C15_skeleton_triggerSettings_hasWorkerPool",
         "C15_skeleton_OrderedMap_ForEach", "C15_skeleton_OrderedMap_Delete", "C15_skeleton_OrderedMap_Set",
     ],
     "trusted_base": [
@@ -50,7 +53,8 @@ SPEC = {
         "Go toolchain and runtime (sync, sync/atomic, select, context, channels), compiled Lean driver",
         "verif hook valuenotifier.VerifBeforeSelect (build tag verif) used to park a waiter before its select"],
     "modelled": [
-        "event.Event1 Hook/Unhook/Trigger/LinkTo/WithMaxTriggerCount/WithWorkerPool (hook level)/WithPreTriggerFunc (event and hook level) "
+        "event.Event1 Hook/Unhook/Trigger/LinkTo/WithMaxTriggerCount/WithWorkerPool (hook level, event level, nil = in place)/"
+        "WithPreTriggerFunc (event and hook level) "
         "as a sequential machine over hook records",
         "orderedmap.ForEach as used by Trigger: linked list with frozen next pointers of removed elements (weak iteration), any interleaving",
         "trigger counters: one atomic Add per Trigger and per visited hook, any number of concurrent Trigger callers; one hook "
@@ -59,26 +63,30 @@ SPEC = {
         "target and user Hook/Unhook callers, registry with frozen next pointers (Hive/Model/EventsRelink.lean)",
         "promise.Event1 Trigger/OnTrigger/unsubscribe with every critical section and every callback invocation as one step",
         "valuenotifier Notifier/Listener: sequential histories with repeated values; Wait's flag check, select and re-check as separate steps",
-        "NOT modelled: event-level worker pools, the generic arities other than Event1 (generated from one template), "
+        "NOT modelled: the generic arities other than Event1 (generated from one template), "
         "link cycles (the generator keeps links acyclic, a cycle recurses forever in the code), uint64 wrap-around of the counters, "
         "shrinkingmap internals, the worker pool itself (C16) — pooled hooks are observed after the pool drained"],
     "manifest": {
-        "text": "Lean theorems: C15_trigger_exactly_once (every sequential history of New/Hook/Unhook/Trigger with limits and pooled hooks: "
-                "a Trigger invokes exactly the hooks attached before and not unhooked whose limits are not used up, once each, in attachment "
-                "order, with its argument), C15_weak_iteration (any interleaving of iterating Triggers with Hook/Unhook callers over the "
-                "ordered map with frozen next pointers: hooks attached at the start and never unhooked are invoked exactly once, no hook "
-                "twice, attachment order), C15_max_trigger_count (+_never_more; any number of concurrent Trigger callers: the event lets "
-                "min(n,calls) through, the hook fires min(m,that)), C15_link (all histories incl. LinkTo: exactly one attached link hook, on "
-                "the current target, none on former targets), C15_promise_once (any interleaving of OnTrigger/Trigger/unsubscribe: no callback "
-                "twice, winner's argument, exactly once at quiescence whether registered before, during or after Trigger), C15_notifier "
-                "(sequential histories with repeated values: Wait succeeds only if Notify(value) lies between creation and deregistration) and "
-                "C15_notifier_wait_race (any interleaving of Wait/Deregister/Notify/cancel: success only if Notify closed the channel while "
-                "the deregistered flag was unset); witnesses of the two repaired defects replayed on the code. Tie: differential runs of the "
-                "ev/it/pr/vn machines, forced schedules through the verif hook (vr), stress traces (mt/pt/hw) judged by the Lean trace "
-                "predicates, regenerated synchronisation skeletons, independent Go oracles for every clause.",
+        "text": "Lean theorems. Events: C15_trigger_exactly_once / C15_pre_trigger / C15_pooled_exactly_once (every sequential history "
+                "of New/Hook/Unhook/Trigger with limits, hook- and event-level pools, WithWorkerPool(nil), pre-trigger functions: a Trigger "
+                "invokes exactly the hooks attached before and not unhooked whose limits are not used up, once each, in attachment order, "
+                "with its argument, each preceded by the event's and the hook's pre-trigger call; pooled invocations are executed exactly "
+                "once by the time the pools drained, given C16's task conservation), C15_weak_iteration (any interleaving of iterating "
+                "Triggers with Hook/Unhook callers over the ordered map with frozen next pointers), C15_max_trigger_count(_never_more, "
+                "_hooks, _seq) (any number of concurrent Trigger callers, any number of hooks with own limits: the event lets min(n,calls) "
+                "through, every hook fires min(m_i,that)), C15_link (all histories incl. LinkTo: exactly one attached link hook, on the "
+                "current target), C15_link_concurrent (LinkTo under its mutex concurrent with triggers and hookers: a trigger inside one "
+                "link period fires the linked event exactly once, never through a hook removed before it began). Promise: "
+                "C15_promise_once (any interleaving of OnTrigger/Trigger/unsubscribe: never twice, winner's argument, exactly once at "
+                "quiescence whether registered before, during or after Trigger). Notifier: C15_notifier (sequential histories with repeated "
+                "values) and C15_notifier_wait_race (any interleaving of Wait/Deregister/Notify/cancel): success only if Notify(value) lies "
+                "between creation and deregistration; witnesses of the two repaired defects replayed on the code. Tie: differential runs of "
+                "the ev/it/mn/pr/vn machines (it: Hook/Unhook/LinkTo from inside callbacks; mn: nested triggers on the counter protocol), "
+                "forced schedules through the verif hook (vr), stress traces (mt/pt/hw/hc/lk/lm/vc) judged by Lean trace predicates, 17 "
+                "regenerated synchronisation skeletons, independent Go oracles for every clause.",
         "note": "Trusted: Lean kernel; the hand-written models (tied as described); Go runtime semantics of atomics, select and channels as "
-                "written into the protocol models; one event/one hook in the counter protocol (hooks are independent records); "
-                "WithPreTriggerFunc and event-level pools not modelled.",
+                "written into the protocol models; a trigger overlapping a re-link is only bounded (0..once per link hook), "
+                "pooled delivery assumes C16's conservation; arities other than Event1 and link cycles not modelled.",
         "technique": "Lean 4 invariant proofs over all histories / all interleavings (Hive.Conc.Sys) + differential correspondence, "
                      "forced schedules and trace predicates",
     },
